@@ -6,6 +6,9 @@ CONSTANTS
   MaxDatagrams = 3
   CIAs <- CIAs2
   CHosts <- CHosts2
+  EpochLen = 1
+  MaxClock = 1
+  Grace = 0
   KeepPathType = FALSE
   Modes <- ModesK
   ULs <- ULsK
